@@ -97,6 +97,12 @@ type PropFile struct{ Prop, File, Re string }
 
 type MapOrderDirective struct{ Prop, File string }
 
+// CallersDirective: the functions that may call Callee directly (a call funnel)
+type CallersDirective struct {
+	Prop, Callee string
+	Allowed      []string
+}
+
 // GlobalStateDirective: the package-level variables that may change after initialisation
 type GlobalStateDirective struct {
 	Prop    string
@@ -122,6 +128,7 @@ type EnsuresAll struct {
 type ContractFile struct {
 	MapOrders  []MapOrderDirective
 	GlobalStates []GlobalStateDirective
+	Callers      []CallersDirective
 	Resets     []ResetDirective
 	ClauseAll  []ClauseAll
 	EnsuresAll []EnsuresAll
@@ -219,6 +226,22 @@ func processContractLines(cf *ContractFile, lines []string, lnos []int) error {
 				}
 			}
 			cf.Effects = append(cf.Effects, d)
+			cur = nil
+			continue
+		case strings.HasPrefix(t, "callers "):
+			// callers Cxx Callee | caller, caller, ...
+			parts := strings.SplitN(strings.TrimPrefix(t, "callers "), "|", 2)
+			hd := strings.Fields(parts[0])
+			if len(parts) != 2 || len(hd) != 2 {
+				return fmt.Errorf("line %d: callers Cxx Callee | allowed callers", no)
+			}
+			d := CallersDirective{Prop: hd[0], Callee: hd[1]}
+			for _, f := range strings.Split(parts[1], ",") {
+				if f = strings.TrimSpace(f); f != "" {
+					d.Allowed = append(d.Allowed, f)
+				}
+			}
+			cf.Callers = append(cf.Callers, d)
 			cur = nil
 			continue
 		case strings.HasPrefix(t, "globalstate "):
